@@ -238,3 +238,18 @@ PROPS["C18"] = dict(
                  "observation of the real code (deep snapshot), hence level exploration",
                  "what join / last / sort / reverse / slice do to a map is not stated: maps only get keys, default, first, merge"],
 )
+
+PROPS["C16"] = dict(
+    level="model_checking",
+    stages=[dict(name="fmt", module="MC_CompiledFmt", cfg={"quick": "MC_CompiledFmt.cfg", "thorough": "MC_CompiledFmt.cfg"}, modelonly=True),
+            dict(name="enum", module="MC_C16", cmd="compiled", cfg={"quick": "MC_C16_quick.cfg", "thorough": "MC_C16_thorough.cfg"},
+                 timeout={"quick": 300, "thorough": 900}, limit="30s",
+                 trace=dict(module="Trace_C16", cfg="Trace_C16.cfg"))],
+    nontrivial=lambda r: True,
+    rule="sources (10 ASTs incl. macros, include, extends, invalid UTF-8, empty; literal sources of 4097 / 65535 / 65536 bytes / 1 MiB) x "
+         "names (ASCII, multi-byte, NUL, 0xFF, path-like, with blank) x timestamps (0, -1, 2^62, now) x 2 contexts; per case: field "
+         "identity through Serialize/Deserialize, compiled form registered on a second engine / loaded from data / saved and loaded "
+         "by the compiled loader renders like the source (= the reference semantics); serialised bytes validated by Trace_C16",
+    assumptions=["CompiledFmt.tla: TLC checks Decode(Encode(x)) = x and that every strict prefix is rejected, on a bounded record space",
+                 "file-based steps only for names that are valid file names"],
+)
